@@ -18,7 +18,8 @@ def observe(h):
             # (step() announces the time before every event, a run only when it changes: the first view per distinct time)
             "time_changed_views": _first_per_time([r for r in h.timeline if r[0] == "sc"]),
             "stats": {k: stat_getters(st) for k, st in sorted(h.stats.items())},
-            "clock": float(h.sim.simulator_time).hex(), "state": h.sim.run_state.name}
+            "clock": float(h.sim.simulator_time).hex(), "state": h.sim.run_state.name,
+            "initial_methods_run_by_the_last_initialize": h.initial_methods_run - (1 if h.prog.get("initial") else 0)}
 
 
 def _first_per_time(recs):
@@ -61,7 +62,7 @@ def prior_activity(kind):
         from vlib.simharness import Harness
         h = Harness({"clock": "float", "rep": {"start": 0.0, "warmup": 0.0, "length": 5.0},
                      "init": [["rel", 1.0, 5, "x1"], ["ev", 2.0, 5, "x2"], ["ev", 2.0, 5, "x4"]],
-                     "handlers": {"x1": [["rel", 1.5, 5, "x3"], ["ev", 3.0, 5, "x5"]]}}, "unrelated")
+                     "handlers": {"x1": [["rel", 1.5, 5, "x3"], ["ev", 3.0, 5, "x5"]]}, "initial": [["now", 5, "x9"]]}, "unrelated")
         h.cmd("initialize")
         h.cmd("start")
         h.wait_quiescent(20)
